@@ -287,6 +287,7 @@ def replay_history(rng, tier, rtcp=False, n_ssrc=None, steps=None, common_roc=No
     start = {s: rng.choice([0, 1, 100, 32767, 32768, 65000, 65535]) for s in ssrcs}
     steps = steps or (80 if tier == "quick" else 600)
     delivered = set()
+    delivered_ssrcs = set()
     for step_no in range(steps):
         s = rng.choice(ssrcs)
         if rekey and not wildcard and rng.random() < rekey and all(pool[x] for x in ssrcs):
@@ -321,11 +322,13 @@ def replay_history(rng, tier, rtcp=False, n_ssrc=None, steps=None, common_roc=No
                 pool[s].append((len(L), idx)); L.append(f"# S {s:x} {idx:x}")
             else:
                 line, idx = rng.choice(pool[s][-8:] if rng.random() < 0.7 else pool[s])
-                if rng.random() < damaged:
+                if rng.random() < damaged or (damaged and common_roc is not None and s not in delivered_ssrcs):
+                    # (with an imposed common ROC the very first delivery of each SSRC is always preceded by a damaged copy: the
+                    # imposed ROC must survive a refused first packet)
                     # a damaged copy arrives first (rejected; must leave the stream's index state alone)
                     L.append(pkt_op("unprotect", 2, f"@{line:x}~{rng.randrange(96, 8 * 22):x}", cap=100)); L.append("# X")
                 L.append(pkt_op("unprotect", 2, f"@{line:x}", cap=100)); L.append(f"# D {s:x} {idx:x} {line:x}")
-                delivered.add(line)
+                delivered.add(line); delivered_ssrcs.add(s)
                 if rng.random() < 0.2:
                     L.append(f"getroc 2 {H(s)}"); L.append(f"# R {s:x}")
     L += ["dealloc 1", "dealloc 2"]
